@@ -97,3 +97,28 @@ reg("C20",
     "rewound recorder, shuffled validator orders, buffer close/open.",
     "Trusts: a suspended generator of the earlier use is never resumed after the second use started.",
     "runtime monitoring: use-history differential oracle (reused vs fresh object)", "DESIGN.md section 7 C20")
+reg("C12",
+    "Schedule exploration with history checking: the real worker threads run under a deterministic cooperative scheduler "
+    "(own queue class substituted for auditok.workers.Queue; scheduled Worker.start/join; queue-wait timeouts and pre-emptions "
+    "are seeded decisions; optional line-level pre-emption through sys.monitoring) plus a real-time stress mode; every "
+    "observer's recorded message history is compared with split() and thread termination is decided in logical time.",
+    "Trusts: queue.Queue's own internals (replaced), split() as the detection oracle (tied to the model by C05). Schedules are sampled, not exhausted.",
+    "runtime monitoring: deterministic scheduler + offline history checker (exactly-once, order, termination)", "DESIGN.md sections 6, 7 C12")
+reg("C13",
+    "Same scheduler; the byte content and headers of the files written by StreamSaverWorker, AudioEventsJoinerWorker and "
+    "RegionSaverWorker are compared with the blocks logged at the reader boundary and with the detections, across cache sizes, "
+    "empty/event-free streams, silence durations, templates and writer-lagging schedules.",
+    "Trusts: stdlib wave/open for reading back. Schedules are sampled.",
+    "runtime monitoring: deterministic scheduler + conservation oracle (blocks in == blocks saved) on recorded histories", "DESIGN.md sections 6, 7 C13")
+reg("C14",
+    "Fault enumeration: the stop is injected at every read index of each stream (and several scheduler steps within it), "
+    "schedules around it are explored by the seeded strategies; prefix-consistency and clean shutdown are checked on the "
+    "recorded history and files; real command-line children receive SIGINT under back-pressure.",
+    "Trusts: 'moment of the stop' = enqueue of the stop marker; one read in flight allowed. Interleavings per stop point are sampled.",
+    "runtime monitoring: stop-point enumeration under a deterministic scheduler + SIGINT on real child processes", "DESIGN.md sections 6, 7 C14", category="fault_enumeration")
+reg("C15",
+    "End-to-end differential monitor: cmdline.main(argv) in-process and real child processes vs split() called with kwargs "
+    "rebuilt from argv with the documented defaults hard-coded; output parsed back through an independent formatter oracle; "
+    "files checked byte-exactly; formatter checked on generated durations.",
+    "Trusts: split() as detection oracle (C05). Timestamp, plotting, echo, microphone, compressed formats not covered.",
+    "runtime monitoring: end-to-end differential oracle on stdout, exit status and files", "DESIGN.md section 7 C15")
